@@ -10,7 +10,7 @@ from .. import evaluation as E, evalenv, extract, valgen as V
 from ..common import Ctx
 from . import _valcommon as VC
 
-MODULES = ["Ahbicht.Properties.C13"]
+MODULES = ["Ahbicht.Properties.C13", "Ahbicht.Properties.C13Full"]
 
 
 def expected_order(spec, status_of):
